@@ -183,6 +183,37 @@ def Cell.run (norm : List α → α) : Cell α → List (UeSpec α) → Cell α 
     let (c2, sts) := Cell.run norm c1 rest
     (c2, st :: sts)
 
+/-- what the read-only accessors of a cell show: `(Nzc, size, index)` of the root and
+    `(normalized, number of rows, row length)` of every user built so far -/
+def Cell.observe (c : Cell α) : (Nat × Nat × Nat) × List (Bool × Nat × Nat) :=
+  ((c.root.nzc, c.root.size, c.root.index),
+   c.users.map (fun ue => (ue.normalized, ue.rows.length, (ue.rows.headD []).length)))
+
+/-- operations of a cell history: constructions, read-only calls (`Nzc`, `size`,
+    `index`, `seq_array()`, `[...]`, `conj()`, `+`, `*`, `repr`, `normalized`,
+    `shape`, `cover_code`, …) and copies (`copy.copy`, `copy.deepcopy`, pickle
+    round trip) of a user built earlier, kept as one more user -/
+inductive CellOp (α : Type) where
+  | build (sp : UeSpec α)
+  | query
+  | copy (j : Nat)
+
+/-- one operation; a query returns the observables and leaves the cell alone -/
+def Cell.step (norm : List α → α) (c : Cell α) : CellOp α → Cell α × Option PyErr
+  | .build sp => c.addUser norm sp
+  | .query => (c, none)
+  | .copy j =>
+    match c.users[j]? with
+    | some ue => (⟨c.root, c.users ++ [ue]⟩, none)
+    | none => (c, some .IndexError)
+
+def Cell.runOps (norm : List α → α) : Cell α → List (CellOp α) → Cell α × List (Option PyErr)
+  | c, [] => (c, [])
+  | c, op :: rest =>
+    let (c1, st) := c.step norm op
+    let (c2, sts) := Cell.runOps norm c1 rest
+    (c2, st :: sts)
+
 /-- `Σ_n x[n]·w(n)` -/
 def dot (x : List α) (w : Nat → α) : α := (x.zipIdx.map (fun p => p.1 * w p.2)).sum
 
